@@ -554,7 +554,8 @@ pub fn c09<T: Fx>(thorough: bool) -> Vec<CellDef> {
             }));
             continue;
         }
-        for (sfx, sp) in unary_low::<T>(thorough, 5) {
+        // fract is not monotone: per-case reference, still every pattern (lattice only in the C16 quick pass)
+        for (sfx, sp) in unary_low::<T>(thorough, 0) {
             v.push(CellDef::new("C09", format!("{}/{}{}", T::NAME, RND[which as usize], sfx), sp, case));
         }
         if T::N == 32 && !thorough {
@@ -775,7 +776,8 @@ pub fn c10<T: Fx>(thorough: bool) -> Vec<CellDef> {
 // -------------------------------------------------------------------------------------------------
 
 fn f32_space(thorough: bool) -> Vec<(String, Space)> {
-    if thorough {
+    // every f32 bit pattern in both tiers; only the C16 quick pass (VERIF_LIGHT) uses the lattice
+    if thorough || !light() {
         vec![(String::new(), Space::all(32))]
     } else {
         // sign x exponent x top 13 mantissa bits x low menu
